@@ -195,3 +195,29 @@ def run_case(sc: Dict[str, Any]) -> Outcome:  # type: ignore[no-redef]
             out.add("C03.c", v.detail + " - the worker has one execution slot less from now on")
     out.nontrivial, out.classes, out.trace = inner.nontrivial, inner.classes, inner.trace
     return out
+
+
+# ---------------------------------------------------------------- CLI wiring: from worker flags to the receiver
+#
+# the limit given with --max-async-tasks (default 100) is the one the worker's receiver enforces, whatever other options accompany it and
+# in whatever order.  Flags are parsed with the real WorkerArgs.from_cli and the real start_listen() builds the receiver.
+
+from vt.harness import cliwire as _cliwire
+
+_parts_core03b, _run_core03b = parts, run_case
+
+
+def parts(tier: str) -> List[Part]:  # type: ignore[no-redef]
+    return _parts_core03b(tier) + [Part("cli_wiring", "given", shards=1, examples=1500 if tier == "thorough" else 150,
+                                        strategy=lambda: _cliwire.FLAGS.map(lambda f: {"flags": f}), soft_deadline_s=300)]
+
+
+def run_case(case: Dict[str, Any]) -> Outcome:  # type: ignore[no-redef]
+    if "flags" not in case:
+        return _run_core03b(case)
+    out = Outcome()
+    out.clauses_checked = ["C03.a"]
+    _cliwire.check(case["flags"], ["max_async_tasks"], "C03.a", out)
+    out.nontrivial = any(case["flags"].get(k) not in (None, False) for k in case["flags"])
+    out.classes = ["cli_wiring"]
+    return out
